@@ -416,6 +416,64 @@ def rule_copyin(rep: Report, cu: CUnit) -> None:
                 and any(is_assign(x) and cu.src_of(x) == 'hi = low_max_end' for x in walk(n['inner'][1]))
                 for n in walk(body))
     rep.check(clamp, 'C07.COPYIN', 'copy hi window clamp', 'if (hi > low_max_end) hi = low_max_end', cu.site(cu.func(fname)))
+    # every build loop covers its whole range: `for (v = 0; v < BOUND; v++)`, no early exit, the only skip is an
+    # unallocated slot.  (a `break` after the first copied intersection loses the second segment sharing a page.)
+    expected_bounds = {'fill': ['low_max_end'], 'memset': ['m.segment_count'],
+                       'memcpy': ['m.slot_count', 'm.segment_count']}
+    def loops_around(target: dict) -> List[dict]:
+        out, cur = [], target
+        while cur is not None:
+            cur = cu.parent(cur)
+            if isinstance(cur, dict) and cur.get('kind') in ('ForStmt', 'WhileStmt', 'DoStmt'):
+                out.append(cur)
+        return list(reversed(out))
+    targets: Dict[str, dict] = {}
+    for n in walk(body):
+        if is_assign(n):
+            m = _mem_of(strip(n['inner'][0]))
+            if m and m[0] == 'flat' and cu.src_of(n['inner'][1]) == 'garbage_fill':
+                targets['fill'] = n
+        if n.get('kind') == 'CallExpr' and callee(n) in ('memset', 'memcpy'):
+            targets[callee(n)] = n
+    for kind, bounds in expected_bounds.items():
+        t = targets.get(kind)
+        if t is None:
+            continue
+        loops = loops_around(t)
+        got = []
+        for lp in loops:
+            if lp.get('kind') != 'ForStmt':
+                got.append(lp.get('kind'))
+                continue
+            init, _cv, cond, inc, lbody = (lp['inner'] + [None] * 5)[:5]
+            var = None
+            if isinstance(init, dict) and is_assign(init) and int_value(strip(init['inner'][1])) == 0:
+                var = cu.src_of(init['inner'][0])
+            ci = c_ir(cond, cu.src_of) if isinstance(cond, dict) and cond.get('kind') else None
+            ok_shape = (var is not None and ci is not None and ci[0] == 'cmp' and list(ci[1]) == ['<']
+                        and lx.show(ci[2][0]) == var
+                        and isinstance(inc, dict) and inc.get('kind') == 'UnaryOperator' and inc.get('opcode') == '++'
+                        and cu.src_of(inc['inner'][0]) == var)
+            got.append(lx.show(ci[2][1]) if ok_shape else f'?{cu.src_of(lp)[:50]}')
+            exits = []
+            for x in walk(lbody) if isinstance(lbody, dict) else []:
+                k = x.get('kind')
+                if k in ('BreakStmt', 'ReturnStmt', 'GotoStmt'):
+                    exits.append(k)
+                elif k == 'ContinueStmt':
+                    par = cu.parent(x)
+                    while isinstance(par, dict) and par.get('kind') == 'CompoundStmt':
+                        par = cu.parent(par)
+                    if not (isinstance(par, dict) and par.get('kind') == 'IfStmt'
+                            and cu.src_of(par['inner'][0]).replace(' ', '') == '!m->slots[i].key_plus1'):
+                        exits.append('continue')
+                elif var is not None and (is_assign(x) or x.get('kind') == 'CompoundAssignOperator'
+                                          or (k == 'UnaryOperator' and x.get('opcode') in ('++', '--'))):
+                    if cu.src_of(x['inner'][0]) == var:
+                        exits.append(f'{var} modified')
+            rep.check(not exits, 'C07.COPYIN', f'{kind}:loop over {got[-1]} runs to the end', f'{exits}',
+                      cu.site(lp, fname), expected='no break / return / goto / counter update inside the build loop')
+        rep.check(got == bounds, 'C07.COPYIN', f'{kind}:loop range', f'{got}', cu.site(t, fname), expected=f'{bounds}')
 
 
 # ---------------------------------------------------------------- C07.MODE
